@@ -173,3 +173,16 @@ V("C11", "teye_not_updated", "violation", (MODEL, "                        self.
 V("C11", "json_no_refresh", "violation", ("andes/io/json.py", "        instance.cache.refresh(\"df_in\")\n", ""), rule="C11.export")
 V("C11", "reset_no_restore", "violation", (SYSTEM, "        self._p_restore()\n        self.is_setup = False", "        self.is_setup = False"), rule="C11.reset")
 V("C11", "benign_coeff_rewrite", "silent", (SYSTEM, "'current': (Sn / Vn) / (Sb / Vb),", "'current': (Sn * Vb) / (Sb * Vn),"))
+
+# ---------------- C12
+CONN = "andes/core/connman.py"
+V("C12", "bus_deps_drops_shunt", "violation", (CONN, "    ('StaticShunt', ['bus']),\n", ""), rule="C12.bus-deps")
+V("C12", "bus_deps_line_one_end", "violation", (CONN, "    ('ACLine', ['bus1', 'bus2']),", "    ('ACLine', ['bus1']),"), rule="C12.bus-deps")
+V("C12", "connectivity_forgets_jumper", "violation", (SYSTEM, "        fr.extend(self.Jumper.a1.a.tolist())\n        to.extend(self.Jumper.a2.a.tolist())\n        u.extend(self.Jumper.u.v.tolist())\n", ""), rule="C12.series")
+V("C12", "edge_status_mixed", "violation", (SYSTEM, "        u.extend(self.Jumper.u.v.tolist())", "        u.extend(self.Line.u.v.tolist()[:self.Jumper.n])"), rule="C12.series")
+V("C12", "adjacency_one_way", "violation", (SYSTEM, "                        fr + to + fr + to,\n                        to + fr + fr + to,", "                        fr + fr + fr + to,\n                        to + to + fr + to,"), rule="C12.series")
+V("C12", "msw_threshold", "violation", (SYSTEM, "                elif nosw < 0:\n                    self.Bus.msw_island.append(idx)", "                elif nosw < -1:\n                    self.Bus.msw_island.append(idx)"), rule="C12.slack")
+V("C12", "slack_status_ignored", "violation", (SYSTEM, "                    if (u == 1) and (item in island):", "                    if (item in island):"), rule="C12.slack")
+V("C12", "g_islands_before_collect", "violation", (SYSTEM, "        self._e_to_dae(('f', 'g'))\n\n        # reset mismatches for islanded buses\n        self.g_islands()", "        # reset mismatches for islanded buses\n        self.g_islands()\n        self._e_to_dae(('f', 'g'))"), rule="C12.neutralise")
+V("C12", "no_recheck_after_event", "violation", (TDS, "        if ret is True and self.config.check_conn == 1:\n            system.connectivity(info=False)", "        if ret is True and self.config.check_conn == 1:\n            pass"), rule="C12.recheck")
+V("C12", "benign_bus_deps_order", "silent", (CONN, "    ('StaticLoad', ['bus']),\n    ('StaticShunt', ['bus']),", "    ('StaticShunt', ['bus']),\n    ('StaticLoad', ['bus']),"))
